@@ -86,7 +86,7 @@ def run_property(pid, tier="quick", seed=0, jobs=None, mutate=None):
         results = [_worker(w) for w in work]
     else:
         ctx = mp.get_context("fork")
-        with ctx.Pool(jobs) as pool:
+        with ctx.Pool(jobs, maxtasksperchild=1) as pool:
             results = pool.map(_worker, work, chunksize=1)
     return mod, targets, results, opts
 
@@ -156,9 +156,6 @@ def decide(pid, tier, seed, mod, targets, results, opts, t_start):
         kf = match_known(o, findings) if o["status"] == "refuted" else None
         if kf is not None:
             known_hit.append((o, kf))
-            continue
-        if o["status"] == "unsupported":
-            undecided.append(o)
             continue
         replay_res = None
         if o["status"] == "refuted" and tgt is not None and tgt.replay is not None and o.get("model") is not None:
